@@ -399,10 +399,46 @@ class Family(object):
             ind.fitness.values = fit
         return len(invalid)
 
+    reuse_hof = None
+    reuse_hof_maxsize = None
+
+    def hof(self, factory):
+        """second run of mode `twice`: the script keeps its archive object, empties it with clear() and uses it again"""
+        if self.reuse_hof is not None:
+            self.reuse_hof.clear()
+            if self.reuse_hof_maxsize is not None:
+                # the script's own reconfiguration (params reconf raises maxsize) is undone by the script as well:
+                # clear() documents that it empties the archive, not that it restores its configuration
+                self.reuse_hof.maxsize = self.reuse_hof_maxsize
+            return self.reuse_hof
+        h = factory()
+        self.reuse_hof_maxsize = getattr(h, "maxsize", None)
+        return h
+
     def log(self, st, pop, **kw):
         rec = self.stats.compile(pop) if self.stats is not None else {}
         st["logbook"].record(**kw, **rec)
+        if self.params.get("reconf"):
+            self.reconfigure(st, kw.get("gen", 0))
         self.stream_text = st["logbook"].stream     # what a verbose loop prints (moves buffindex)
+
+    def reconfigure(self, st, gen):
+        """params reconf: between generations the script uses the public mutation routes of logbook and archive
+        (header assignment, log_header, pop, del, remove, maxsize); the objects are checkpointed afterwards"""
+        lb, hof = st["logbook"], st["halloffame"]
+        if gen == 1:
+            lb.header = None                 # columns from the first record + chapters
+        elif gen == 2:
+            lb.log_header = False
+            if len(hof) > 1:
+                hof.remove(-1)
+        elif gen == 3:
+            lb.pop(0)
+            if isinstance(hof.maxsize, int):
+                hof.maxsize += 1
+        elif gen == 4:
+            del lb[0]
+            lb.header = ["gen", "nevals"] + list(reversed(self.stats.fields if self.stats else []))
 
     def std_stats(self, axis=None):
         s = tools.Statistics(lambda ind: ind.fitness.values)
@@ -430,14 +466,17 @@ class GAList(Family):
         tb.register("population", tools.initRepeat, list, tb.individual)
         tb.register("evaluate", ev_onemax)
         tb.register("mate", tools.cxTwoPoint)
-        tb.register("mutate", tools.mutFlipBit, indpb=0.05)
+        tb.register("mutate", tools.mutFlipBit, indpb=self.params.get("indpb", 0.05))
         tb.register("select", tools.selTournament, tournsize=3)
+        if "len" in self.params:
+            tb.register("individual", tools.initRepeat, creator.IndividualC17, tb.attr_bool, self.params["len"])
+            tb.register("population", tools.initRepeat, list, tb.individual)
         self.stats = self.std_stats()
 
     def init(self):
-        pop = self.toolbox.population(n=12)
-        st = {"population": pop, "generation": 0, "halloffame": tools.HallOfFame(3), "logbook": self.new_logbook(),
-              "strategy": None}
+        pop = self.toolbox.population(n=self.params.get("n", 12))
+        st = {"population": pop, "generation": 0, "halloffame": self.hof(lambda: tools.HallOfFame(self.params.get("hof", 3))),
+              "logbook": self.new_logbook(), "strategy": None}
         n = self.evaluate_invalid(pop)
         st["halloffame"].update(pop)
         self.log(st, pop, gen=0, nevals=n)
@@ -447,7 +486,7 @@ class GAList(Family):
         tb = self.toolbox
         pop = st["population"]
         off = tb.select(pop, len(pop))
-        off = algorithms.varAnd(off, tb, 0.6, 0.3)
+        off = algorithms.varAnd(off, tb, self.params.get("cxpb", 0.6), self.params.get("mutpb", 0.3))
         n = self.evaluate_invalid(off)
         st["halloffame"].update(off)
         pop[:] = off
@@ -500,7 +539,7 @@ class GANumpy(GAList):
 
     def init(self):
         pop = self.toolbox.population(n=8)
-        st = {"population": pop, "generation": 0, "halloffame": tools.HallOfFame(2, similar=numpy.array_equal),
+        st = {"population": pop, "generation": 0, "halloffame": self.hof(lambda: tools.HallOfFame(2, similar=numpy.array_equal)),
               "logbook": self.new_logbook(), "strategy": None}
         n = self.evaluate_invalid(pop)
         st["halloffame"].update(pop)
@@ -537,7 +576,7 @@ def uniform(low, up, size):
 class NSGA2(Family):
     """examples/ga/nsga2.py with a ParetoFront archive."""
     def setup(self):
-        creator.create("FitnessC17", base.Fitness, weights=(-1.0, -1.0))
+        creator.create("FitnessC17", base.Fitness, weights=tuple(self.params.get("weights", (-1.0, -1.0))))
         creator.create("IndividualC17", list, fitness=creator.FitnessC17)
         tb = self.toolbox
         tb.register("attr_float", uniform, 0.0, 1.0, 6)
@@ -546,13 +585,13 @@ class NSGA2(Family):
         tb.register("evaluate", ev_zdt1)
         tb.register("mate", tools.cxSimulatedBinaryBounded, low=0.0, up=1.0, eta=20.0)
         tb.register("mutate", tools.mutPolynomialBounded, low=0.0, up=1.0, eta=20.0, indpb=1.0 / 6)
-        tb.register("select", tools.selNSGA2)
+        tb.register("select", tools.selNSGA2, nd=self.params.get("nd", "standard"))
         self.stats = self.std_stats(axis=0)
 
     def init(self):
         tb = self.toolbox
         pop = tb.population(n=12)
-        st = {"population": pop, "generation": 0, "halloffame": tools.ParetoFront(), "logbook": self.new_logbook(),
+        st = {"population": pop, "generation": 0, "halloffame": self.hof(lambda: tools.ParetoFront()), "logbook": self.new_logbook(),
               "strategy": None}
         n = self.evaluate_invalid(pop)
         pop = tb.select(pop, len(pop))          # assigns crowding distance, no actual selection
@@ -602,7 +641,7 @@ class NSGA2Np32(NSGA2):
     def init(self):
         tb = self.toolbox
         pop = tb.population(n=self.mu)
-        st = {"population": pop, "generation": 0, "halloffame": tools.ParetoFront(similar=numpy.array_equal),
+        st = {"population": pop, "generation": 0, "halloffame": self.hof(lambda: tools.ParetoFront(similar=numpy.array_equal)),
               "logbook": self.new_logbook(), "strategy": None}
         n = self.evaluate_invalid(pop)
         pop = tb.select(pop, len(pop))
@@ -660,7 +699,7 @@ class GAArrayF(GAList):
 class SPEA2(Family):
     """(mu+lambda) loop with selSPEA2 and a ParetoFront archive."""
     def setup(self):
-        creator.create("FitnessC17", base.Fitness, weights=(-1.0, -1.0))
+        creator.create("FitnessC17", base.Fitness, weights=tuple(self.params.get("weights", (-1.0, -1.0))))
         creator.create("IndividualC17", list, fitness=creator.FitnessC17)
         tb = self.toolbox
         tb.register("attr_float", uniform, -5.0, 5.0, 3)
@@ -675,7 +714,7 @@ class SPEA2(Family):
     def init(self):
         tb = self.toolbox
         pop = tb.population(n=10)
-        st = {"population": pop, "generation": 0, "halloffame": tools.ParetoFront(), "logbook": self.new_logbook(),
+        st = {"population": pop, "generation": 0, "halloffame": self.hof(lambda: tools.ParetoFront()), "logbook": self.new_logbook(),
               "strategy": None}
         n = self.evaluate_invalid(pop)
         st["halloffame"].update(pop)
@@ -718,7 +757,7 @@ class NSGA3(Family):
     def init(self):
         tb = self.toolbox
         ref = self.args["ref_points"]
-        st = {"generation": 0, "halloffame": tools.ParetoFront(), "logbook": self.new_logbook(),
+        st = {"generation": 0, "halloffame": self.hof(lambda: tools.ParetoFront()), "logbook": self.new_logbook(),
               "strategy": tools.selNSGA3WithMemory(ref, nd=self.params.get("nd", "log"))}
         self.attach(st)
         pop = tb.population(n=12)
@@ -790,7 +829,7 @@ class GPSym(Family):
 
     def init(self):
         pop = self.toolbox.population(n=16)
-        st = {"population": pop, "generation": 0, "halloffame": tools.HallOfFame(6), "logbook": self.new_logbook(),
+        st = {"population": pop, "generation": 0, "halloffame": self.hof(lambda: tools.HallOfFame(6)), "logbook": self.new_logbook(),
               "strategy": None}
         n = self.evaluate_invalid(pop)
         st["halloffame"].update(pop)
@@ -862,7 +901,7 @@ class GPADF(Family):
 
     def init(self):
         pop = self.toolbox.population(n=12)
-        st = {"population": pop, "generation": 0, "halloffame": tools.HallOfFame(3), "logbook": self.new_logbook(),
+        st = {"population": pop, "generation": 0, "halloffame": self.hof(lambda: tools.HallOfFame(3)), "logbook": self.new_logbook(),
               "strategy": None}
         n = self.evaluate_invalid(pop)
         st["halloffame"].update(pop)
@@ -1009,16 +1048,33 @@ class CMA(Family):
         if u:
             return cma.Strategy(centroid=self.args["centroid"], sigma=u.get("sigma", 2.0), lambda_=u.get("lambda_", 12),
                                 cmatrix=self.args["cmatrix"])
-        return cma.Strategy(centroid=[5.0] * 5, sigma=5.0, lambda_=10)
+        kw = dict(self.params.get("strategy_kw", {}))
+        kw.setdefault("lambda_", 10)
+        return cma.Strategy(centroid=[5.0] * 5, sigma=5.0, **kw)
 
     def init(self):
-        st = {"population": [], "generation": 0, "halloffame": tools.HallOfFame(2), "logbook": self.new_logbook(),
+        st = {"population": [], "generation": 0, "halloffame": self.hof(lambda: tools.HallOfFame(2)), "logbook": self.new_logbook(),
               "strategy": self.make_strategy()}
         self.attach(st)
         return st
 
+    def relambda(self, st, gen):
+        """params relambda = [generation, new lambda]: the script changes the population size of the strategy through
+        its public route in the middle of the run (as restart strategies do)"""
+        rl = self.params.get("relambda")
+        if rl and gen == rl[0]:
+            strategy = st["strategy"]
+            if isinstance(strategy, cma.StrategyOnePlusLambda):
+                strategy.computeParams({"lambda_": rl[1]})
+            elif isinstance(strategy, cma.Strategy):
+                strategy.lambda_ = rl[1]
+                strategy.computeParams(strategy.params)
+            else:
+                strategy.lambda_ = rl[1]         # property setter of the active strategy
+
     def step(self, st, gen):
         tb = self.toolbox
+        self.relambda(st, gen)
         pop = tb.generate()
         fits = tb.map(tb.evaluate, pop)
         for ind, fit in zip(pop, fits):
@@ -1047,7 +1103,7 @@ class CMA1PL(CMA):
             return cma.StrategyOnePlusLambda(self.args["parent"], sigma=5.0, lambda_=8)
         parent = creator.IndividualC17(numpy.random.rand(5) * 2 - 1)
         parent.fitness.values = self.toolbox.evaluate(parent)
-        return cma.StrategyOnePlusLambda(parent, sigma=5.0, lambda_=8)
+        return cma.StrategyOnePlusLambda(parent, sigma=5.0, **dict({"lambda_": 8}, **self.params.get("strategy_kw", {})))
 
 
 def ev_sphere_constrained(ind):
@@ -1074,6 +1130,7 @@ class CMAActive(CMA):
 
     def step(self, st, gen):
         tb = self.toolbox
+        self.relambda(st, gen)
         pop = tb.generate()
         fits = tb.map(tb.evaluate, pop)
         for ind, fit in zip(pop, fits):
@@ -1119,7 +1176,7 @@ class MOCMA(Family):
             for ind in pop:
                 ind.fitness.values = self.toolbox.evaluate(ind)
         strategy = cma.StrategyMultiObjective(pop, sigma=1.0, mu=mu, lambda_=lam)
-        st = {"population": pop, "generation": 0, "halloffame": tools.ParetoFront(), "logbook": self.new_logbook(),
+        st = {"population": pop, "generation": 0, "halloffame": self.hof(lambda: tools.ParetoFront()), "logbook": self.new_logbook(),
               "strategy": strategy}
         st["halloffame"].update(pop)
         self.attach(st)
@@ -1175,7 +1232,7 @@ class ES(Family):
 
     def init(self):
         pop = self.toolbox.population(n=6)
-        st = {"population": pop, "generation": 0, "halloffame": tools.HallOfFame(2), "logbook": self.new_logbook(),
+        st = {"population": pop, "generation": 0, "halloffame": self.hof(lambda: tools.HallOfFame(2)), "logbook": self.new_logbook(),
               "strategy": None}
         n = self.evaluate_invalid(pop)
         st["halloffame"].update(pop)
@@ -1211,7 +1268,7 @@ class Islands(Family):
 
     def init(self):
         demes = [self.toolbox.population(n=6) for _ in range(3)]
-        st = {"population": demes, "generation": 0, "halloffame": tools.HallOfFame(2), "logbook": self.new_logbook(),
+        st = {"population": demes, "generation": 0, "halloffame": self.hof(lambda: tools.HallOfFame(2)), "logbook": self.new_logbook(),
               "strategy": None}
         lb = st["logbook"]
         lb.header = ["gen", "deme", "nevals"] + self.stats.fields
@@ -1294,7 +1351,7 @@ class GAOps(Family):
     def setup(self):
         p = self.params
         rep = p["repr"]
-        creator.create("FitnessC17", base.Fitness, weights=(1.0, 1.0))
+        creator.create("FitnessC17", base.Fitness, weights=tuple(p.get("weights", (1.0, 1.0))))
         creator.create("IndividualC17", list, fitness=creator.FitnessC17)
         tb = self.toolbox
         if rep == "bits":
@@ -1316,7 +1373,7 @@ class GAOps(Family):
 
     def init(self):
         pop = self.toolbox.population(n=10)
-        st = {"population": pop, "generation": 0, "halloffame": tools.ParetoFront(), "logbook": self.new_logbook(),
+        st = {"population": pop, "generation": 0, "halloffame": self.hof(lambda: tools.ParetoFront()), "logbook": self.new_logbook(),
               "strategy": None}
         n = self.evaluate_invalid(pop)
         st["halloffame"].update(pop)
@@ -1338,6 +1395,93 @@ class GAOps(Family):
             st["halloffame"].update(off)
             pop[:] = tb.select(pop + off, 10)
         self.log(st, pop, gen=gen, nevals=n)
+
+
+def ev_special(ind):
+    tot = 0.0
+    for i, x in enumerate(ind):
+        x = float(x)
+        if x != x or x in (float("inf"), float("-inf")):
+            continue
+        tot += (i + 1) * math.copysign(min(abs(x), 1e6), x)
+    return (tot, float(sum(1 for x in ind if isinstance(x, float) and x == 0.0 and math.copysign(1.0, x) < 0)))
+
+
+class GASpecial(Family):
+    """list individuals whose genes are awkward values that only move around (two-point crossover, index shuffling,
+    inversion): -0.0, denormals, huge magnitudes, inf, integers beyond 2**53, numpy scalars of several dtypes, bools;
+    weights of magnitude != 1 and mixed sign.  Every gene must come back from every pickle protocol type- and bit-exact."""
+    POOL = [-0.0, 0.0, 5e-324, -2.5e-310, 1.7976931348623157e308, float("inf"), float("-inf"), 2 ** 53 + 1, -(2 ** 70), 10 ** 30,
+            True, False, 1e9 + 1e-3, 1e9 - 1e-3, 1e-9, 1.0 + 2 ** -40, 1.0, 3]
+
+    def setup(self):
+        creator.create("FitnessC17", base.Fitness, weights=(0.3, -2.75))
+        creator.create("IndividualC17", list, fitness=creator.FitnessC17)
+        tb = self.toolbox
+        tb.register("individual", self.make_individual)
+        tb.register("population", tools.initRepeat, list, tb.individual)
+        tb.register("evaluate", ev_special)
+        tb.register("mate", tools.cxTwoPoint)
+        tb.register("mutate", self.mutate)
+        tb.register("select", tools.selTournament, tournsize=2)
+        self.stats = self.std_stats(axis=0)
+
+    def make_individual(self):
+        pool = self.POOL + [numpy.float32(0.1), numpy.float64(-0.0), numpy.int8(-7), numpy.int64(2 ** 62), numpy.bool_(True),
+                            numpy.float16(1.5)]
+        return creator.IndividualC17(random.choice(pool) for _ in range(10))
+
+    def mutate(self, ind):
+        if random.random() < 0.5:
+            return tools.mutShuffleIndexes(ind, indpb=0.3)
+        return tools.mutInversion(ind)
+
+    def init(self):
+        pop = self.toolbox.population(n=10)
+        st = {"population": pop, "generation": 0, "halloffame": self.hof(lambda: tools.ParetoFront()), "logbook": self.new_logbook(),
+              "strategy": None}
+        n = self.evaluate_invalid(pop)
+        st["halloffame"].update(pop)
+        self.log(st, pop, gen=0, nevals=n)
+        return st
+
+    def step(self, st, gen):
+        tb = self.toolbox
+        pop = st["population"]
+        off = tb.select(pop, len(pop))
+        off = algorithms.varAnd(off, tb, 0.7, 0.5)
+        n = self.evaluate_invalid(off)
+        st["halloffame"].update(off)
+        pop[:] = off
+        self.log(st, pop, gen=gen, nevals=n)
+
+
+class GPHarm(Family):
+    """gp.harm (HARM-GP bloat control), one call with ngen=1 per generation, its record merged into the persistent
+    logbook (as the packaged loops of algorithms.py in EALoops)."""
+    def setup(self):
+        GPSym.setup(self)
+        self.stats = self.std_stats()
+
+    mutate = GPSym.mutate
+
+    def init(self):
+        pop = self.toolbox.population(n=16)
+        st = {"population": pop, "generation": 0, "halloffame": self.hof(lambda: tools.HallOfFame(3)), "logbook": self.new_logbook(),
+              "strategy": None}
+        n = self.evaluate_invalid(pop)
+        st["halloffame"].update(pop)
+        self.log(st, pop, gen=0, nevals=n)
+        return st
+
+    def step(self, st, gen):
+        pop, lb = gp.harm(st["population"], self.toolbox, 0.5, 0.2, 1, alpha=0.05, beta=10, gamma=0.25, rho=0.9,
+                          stats=self.stats, halloffame=st["halloffame"], verbose=False)
+        st["population"] = pop
+        rec = dict(lb[-1])
+        rec["gen"] = gen
+        st["logbook"].record(**rec)
+        self.stream_text = st["logbook"].stream
 
 
 class EALoops(Family):
@@ -1389,7 +1533,7 @@ class EALoops(Family):
         self.stream_text = st["logbook"].stream
 
     def init(self):
-        st = {"generation": 0, "halloffame": tools.HallOfFame(3), "logbook": self.new_logbook(), "strategy": None}
+        st = {"generation": 0, "halloffame": self.hof(lambda: tools.HallOfFame(3)), "logbook": self.new_logbook(), "strategy": None}
         if self.loop == "genupd":
             st["population"] = []
             st["strategy"] = cma.Strategy(centroid=[2.0] * 4, sigma=1.0, lambda_=8)
@@ -1502,7 +1646,7 @@ class ModelGA(Family):
     def init(self):
         p = self.params
         pop = [creator.IndividualC17(list(g)) for g in p["pop0"]]
-        st = {"population": pop, "generation": 0, "halloffame": tools.HallOfFame(p["hofsize"]),
+        st = {"population": pop, "generation": 0, "halloffame": self.hof(lambda: tools.HallOfFame(p["hofsize"])),
               "logbook": tools.Logbook(), "strategy": None}
         n = self.evaluate_invalid(pop)
         st["halloffame"].update(pop)
@@ -1580,7 +1724,7 @@ def model_tokens(st, cursor):
 
 
 FAMILIES = {"ga": GAList, "ga_array": GAArray, "ga_numpy": GANumpy, "nsga2": NSGA2, "nsga2_np32": NSGA2Np32, "ga_np_int8": GANumpyInt8, "ga_array_f": GAArrayF, "spea2": SPEA2, "nsga3": NSGA3,
-            "gp": GPSym, "gp_adf": GPADF, "ga_constrained": GAConstrained, "gp_typed": GPTyped, "cma": CMA, "cma1pl": CMA1PL, "cma_active": CMAActive, "mocma": MOCMA, "ealoops": EALoops, "es": ES, "islands": Islands, "ga_ops": GAOps, "modelga": ModelGA}
+            "gp": GPSym, "gp_adf": GPADF, "ga_constrained": GAConstrained, "gp_typed": GPTyped, "cma": CMA, "cma1pl": CMA1PL, "cma_active": CMAActive, "mocma": MOCMA, "ealoops": EALoops, "ga_special": GASpecial, "gp_harm": GPHarm, "es": ES, "islands": Islands, "ga_ops": GAOps, "modelga": ModelGA}
 
 CKPT_KEYS = ["population", "generation", "halloffame", "logbook", "strategy", "rndstate", "nprndstate"]
 
@@ -1640,9 +1784,34 @@ def run(spec):
         pm = DelayedPoolMap(spec.get("pool_kind", "mp"), spec["workers"], spec.get("delay_seed", 0), spec=spec)
         pm.record = isinstance(fam, ModelGA)
         fam.toolbox.register("map", pm)
+
+    def seed_all(seed):
+        if not isinstance(fam, ModelGA):
+            random.seed(seed)
+        else:
+            fam.proxy.setstate(0)
+        numpy.random.seed(seed % (2 ** 32))
+
+    def checkpoint_dict(st):
+        return dict(population=st["population"], generation=st["generation"], halloffame=st["halloffame"],
+                    logbook=st["logbook"], strategy=st["strategy"],
+                    rndstate=(fam.getstate() if isinstance(fam, ModelGA) else random.getstate()),
+                    nprndstate=numpy.random.get_state())
+
+    def advance(st, last, sink):
+        for gen in range(st["generation"] + 1, last + 1):
+            fam.step(st, gen)
+            st["generation"] = gen
+            sink.append(boundary(fam, st))
+            if spec.get("pickle_every_gen"):
+                # the script writes (and an observer reads back) a checkpoint after every generation and goes on:
+                # neither pickling nor unpickling in this process may disturb the run
+                for p in spec["pickle_every_gen"]:
+                    pickle.loads(pickle.dumps(checkpoint_dict(st), p))
+
     try:
         if mode == "resume":
-            with open(os.path.join(spec["ckpt"], "k%d_p%d.pkl" % (spec["k"], spec["protocol"])), "rb") as f:
+            with open(os.path.join(spec["ckpt"], spec.get("ckpt_file") or "k%d_p%d.pkl" % (spec["k"], spec["protocol"])), "rb") as f:
                 cp = pickle.load(f)
             st = {k: cp[k] for k in CKPT_KEYS[:5]}
             if isinstance(fam, ModelGA):
@@ -1653,41 +1822,54 @@ def run(spec):
             fam.attach(st)
             # the text streamed so far is not state; the first boundary of a resumed run is compared without it
             out["boundaries"].append(boundary(fam, st))
+        elif mode == "interleave":
+            # two evolutions (two seeds) advance alternately in ONE process: same toolbox / primitive set / classes and the
+            # same user argument objects; the script swaps both generator states around every generation
+            clients = []
+            for seed, key in ((spec["seed"], "boundaries"), (spec["seed2"], "boundaries_b")):
+                seed_all(seed)
+                fam.stream_text = None
+                st = fam.init()
+                out.setdefault(key, [])
+                out[key].append(boundary(fam, st))
+                clients.append({"st": st, "key": key, "rnd": random.getstate(), "np": numpy.random.get_state(),
+                                "stream": fam.stream_text})
+            for gen in range(1, ngen + 1):
+                for c in clients:
+                    random.setstate(c["rnd"])
+                    numpy.random.set_state(c["np"])
+                    fam.attach(c["st"])
+                    fam.stream_text = c["stream"]
+                    fam.step(c["st"], gen)
+                    c["st"]["generation"] = gen
+                    out[c["key"]].append(boundary(fam, c["st"]))
+                    c["rnd"], c["np"], c["stream"] = random.getstate(), numpy.random.get_state(), fam.stream_text
+            st = clients[0]["st"]
         else:
-            if not isinstance(fam, ModelGA):
-                random.seed(spec["seed"])
-            numpy.random.seed(spec["seed"] % (2 ** 32))
+            seed_all(spec["seed"])
             st = fam.init()
             out["boundaries"].append(boundary(fam, st))
-        last = spec["k"] if mode == "save" else ngen
-        for gen in range(st["generation"] + 1, last + 1):
-            fam.step(st, gen)
-            st["generation"] = gen
-            out["boundaries"].append(boundary(fam, st))
+        if mode != "interleave":
+            last = spec["k"] if mode == "save" else spec.get("stop_k", ngen)
+            advance(st, last, out["boundaries"])
         out["args_sha"].append(args_sha(fam.args))
         if mode == "twice":
-            # the same process, the same toolbox / primitive set / classes and the SAME user argument objects, seeded
-            # identically once more
+            # the same process, the same toolbox / primitive set / classes, the SAME user argument objects and the same
+            # archive object (emptied with clear()), seeded identically once more
             fam.stream_text = None
-            random.seed(spec["seed"])
-            numpy.random.seed(spec["seed"] % (2 ** 32))
+            fam.reuse_hof = st["halloffame"]
+            seed_all(spec["seed"])
             st = fam.init()
             out["boundaries_b"] = [boundary(fam, st)]
-            for gen in range(1, ngen + 1):
-                fam.step(st, gen)
-                st["generation"] = gen
-                out["boundaries_b"].append(boundary(fam, st))
+            advance(st, ngen, out["boundaries_b"])
             out["args_sha"].append(args_sha(fam.args))
-        if mode == "save":
+        if mode == "save" or spec.get("save_as"):
             out["unsupported_protocols"] = {}
             if isinstance(fam, ModelGA):
                 out["ckpt_tokens"] = fam.observe(st)
             for p in spec["protocols"]:
-                cp = dict(population=st["population"], generation=st["generation"], halloffame=st["halloffame"],
-                          logbook=st["logbook"], strategy=st["strategy"],
-                          rndstate=(fam.getstate() if isinstance(fam, ModelGA) else random.getstate()),
-                          nprndstate=numpy.random.get_state())
-                path = os.path.join(spec["ckpt"], "k%d_p%d.pkl" % (spec["k"], p))
+                cp = checkpoint_dict(st)
+                path = os.path.join(spec["ckpt"], spec.get("save_as") or "k%d_p%d.pkl" % (spec["k"], p))
                 try:
                     blob = pickle.dumps(cp, p)
                 except Exception as e:   # noqa
@@ -1720,7 +1902,7 @@ def main():
         f.flush()
         os.fsync(f.fileno())
     os.rename(tmp, spec["out"])
-    if spec["mode"] == "save":
+    if spec["mode"] == "save" or spec.get("save_as"):
         os._exit(0)          # the process is killed right after the checkpoint: no atexit, no finalisers
 
 
